@@ -234,6 +234,25 @@ func TestCheck(t *testing.T) {
 			}
 		}
 	}
+	// equal-sized removal and insertion beyond the first 16 KiB (length and 16k hash unchanged, everything in between shifted)
+	{
+		S := 512
+		files := []scen.FileSpec{{Name: "big.dat", Size: 96 * S, Kind: "random", Seed: 401}}
+		for k, pr := range [][3]int{{20000, 30000, 8}, {16384, 40000, 1}, {17000, 17600, 512}, {30000, 20000, 7}, {100, 30000, 8}, {20000, 48000, 513}} {
+			idx++
+			if cfg.Mine(idx) {
+				do(Case{Files: files, Slice: S, Edit: scen.Damage{Op: "slide", File: 0, Off: pr[0], Other: pr[1], Len: pr[2], Seed: uint64(k)}, G: 2})
+			}
+		}
+		// two identical files above 16 KiB: one copy is lost, its content is still there under the other name
+		twins := []scen.FileSpec{{Name: "a.bin", Size: 20480, Kind: "random", Seed: 402}, {Name: "b.bin", Size: 20480, Kind: "random", Seed: 402}, {Name: "c.bin", Size: 700, Kind: "random", Seed: 403}}
+		for k, e := range []scen.Damage{{Op: "delete", File: 0}, {Op: "delete", File: 1}, {Op: "move", File: 2, Other: 1}, {Op: "truncate", File: 1, Off: 16384}} {
+			idx++
+			if cfg.Mine(idx) {
+				do(Case{Files: twins, Slice: S, Edit: e, G: 1 + k%2})
+			}
+		}
+	}
 	for si, sh := range shapes {
 		lens := []int{1, 2, sh.S - 1, sh.S, sh.S + 1, 2*sh.S + 1}
 		if cfg.Thorough() {
